@@ -20,6 +20,7 @@ pub fn run_case(case: &Value) -> Value {
     let r = catch_unwind(AssertUnwindSafe(|| match kind {
         "prog" => run_prog(case),
         "front" => run_front(case),
+        "scan" => run_scan(case),
         "codec_probe" => codec_probe(),
         "codec_sweep" => codec_sweep(case),
         _ => json!({"how":"tool-error","msg":format!("unknown kind {}", kind)}),
@@ -358,4 +359,31 @@ pub fn run_front(case: &Value) -> Value {
         }
     }
     json!({"how":"ok","outs":outs})
+}
+
+
+// ---------------------------------------------------------------- scanner only (C01, Scanner.tla conformance)
+/// token types (Debug names) the real scanner produces for each text, up to and excluding Eof
+pub fn run_scan(case: &Value) -> Value {
+    let srcs: Vec<String> = serde_json::from_value(case["srcs"].clone()).unwrap_or_default();
+    let mut outs: Vec<Value> = Vec::with_capacity(srcs.len());
+    for src in srcs.iter() {
+        let r = guarded("scan", || {
+            let scanner = Scanner::new(src);
+            let mut v: Vec<String> = Vec::new();
+            for tok in scanner {
+                v.push(format!("{:?}", tok.ttype));
+                if v.len() > src.chars().count() + 2 {
+                    v.push("RUNAWAY".to_string());
+                    break;
+                }
+            }
+            v
+        });
+        match r {
+            Ok(v) => outs.push(json!(v)),
+            Err(e) => outs.push(json!([format!("PANIC {}", e["msg"].as_str().unwrap_or(""))])),
+        }
+    }
+    json!({"how":"ok","toks":outs})
 }
